@@ -279,6 +279,13 @@ func (b *windowTimeBuffer) insert(p edge.PointMessage) {
 	// Check if we need to wrap around
 	if len(b.window) == cap(b.window) && b.stop == len(b.window) {
 		b.stop = 0
+		if b.start == len(b.window) {
+			// The buffer was purged completely while stop was at the end of the slice:
+			// wrap start as well. Otherwise, once the buffer has filled up again
+			// (start == stop == len), purge tests the newest point instead of the
+			// oldest one and leaves expired points in the window.
+			b.start = 0
+		}
 	}
 
 	// Insert point
